@@ -525,6 +525,52 @@ func (w *cluWorld) execOp(ctx context.Context, op cluOp, plan map[string]int, re
 	case "advance":
 		time.Sleep(time.Duration(op.Secs) * time.Second)
 		out.skipped = true
+	case "rm_image":
+		// C21: an operation that acts on the *list* of selected nodes (no map in between):
+		// every selected node exactly once, whatever repeats the include list has
+		podname := ""
+		if op.UsePod || len(op.Includes) == 0 {
+			podname = w.podName(op.Pod)
+		} else {
+			podname = w.podName(op.Pod) // the API wants a pod name even with includes
+		}
+		nf := &coretypes.NodeFilter{Podname: podname}
+		for _, i := range op.Includes {
+			nf.Includes = append(nf.Includes, w.nodeName(i))
+		}
+		ref := w.referenceFilter(pre, nf)
+		before := map[string]int{}
+		for _, n := range sortedKeys(w.engines) {
+			before[n] = w.engines[n].ImageRemoveCount()
+		}
+		ch, err := cal.RemoveImage(ctx, &coretypes.ImageOptions{Podname: podname, Nodenames: nf.Includes, Images: []string{"img"}})
+		if err == nil {
+			for range ch {
+			}
+		}
+		out.err, out.failed = err, err != nil
+		w.probe("c21_image_selection_checked")
+		if err != nil {
+			if ref != nil && len(ref) > 0 && !isInjected(err) {
+				w.viol("C21", "selection-failed", "rm_image", fmt.Sprintf("filter %+v selects %v but the request failed: %v", nf, sortedKeys(ref), err))
+			}
+			return
+		}
+		if ref == nil {
+			w.viol("C21", "unknown-include-accepted", "rm_image", fmt.Sprintf("filter %+v names an unknown node but the request succeeded", nf))
+			return
+		}
+		for _, n := range sortedKeys(w.engines) {
+			d := w.engines[n].ImageRemoveCount() - before[n]
+			want := 0
+			if ref[n] {
+				want = 1
+			}
+			if d != want {
+				w.res.Nontrivial = true
+				w.viol("C21", "node-acted-on-wrong-number-of-times", "rm_image", fmt.Sprintf("filter %+v (expected nodes %v): node %s was acted on %d times, expected %d", nf, sortedKeys(ref), n, d, want))
+			}
+		}
 	case "rpc_pods", "rpc_node", "rpc_status", "rpc_send":
 		// the same calls through the RPC layer (task counter, converters)
 		vib := w.vibranium()
